@@ -210,3 +210,4 @@ def run_property(ctx):
 import reg_cl  # noqa: E402,F401
 import reg_q  # noqa: E402,F401
 import reg_util  # noqa: E402,F401
+import reg_conc  # noqa: E402,F401
